@@ -494,13 +494,14 @@ def r9_flags_flow(run, F):
             if n.get("k") == "Call" and str(hirq.callee(n) or "").endswith("ParseNode::DeclarationFlags"):
                 stored += 1
                 o = origins.origins(b["hir"], n["a"][0], b.get("params", ()))
+                fparam = [q.get("name") for q in b.get("params", []) if "DeclarationFlag" in str(F.lib.ty(q.get("t")))]
                 fresh = sorted(c for k, c in (x[:2] for x in o) if k == "call" and (str(c).startswith("enumset::") or "EnumSet" in str(c) or str(c).endswith("Default>::default")))
-                run.ob("R9-FLAGS-FLOW", "%s|stored flags" % fn, ("param", "flags") in o and not fresh, F.where(b, n),
+                run.ob("R9-FLAGS-FLOW", "%s|stored flags" % fn, len(fparam) == 1 and ("param", fparam[0]) in o and not fresh, F.where(b, n),
                        "the flag set stored in the tree by %s must be its `flags` parameter (possibly extended), never a freshly built set; "
-                       "it derives from the parameter: %s, from set constructors: %s" % (fn, ("param", "flags") in o, fresh))
+                       "it derives from the parameter: %s, from set constructors: %s" % (fn, any(("param", x) in o for x in fparam), fresh))
             if n.get("k") == "MethodCall" and n.get("name") in FLAG_MUTATORS:
                 r = hirq.unwrap_trivial(n["recv"])
-                if r.get("k") == "Path" and r.get("res") == "flags":
+                if r.get("k") == "Path" and r.get("rk") == "Local" and "EnumSet<alpha::common::DeclarationFlag>" in str(F.lib.ty(r.get("t"))).replace(" ", ""):
                     a = hirq.unwrap_trivial(n["a"][0]) if n.get("a") else {}
                     key = (fn, n["name"] == "insert" and str(a.get("res", "?")).split("::")[-1] or n["name"])
                     inserts.add(key)
@@ -509,7 +510,7 @@ def r9_flags_flow(run, F):
             if n.get("k") == "Call" and (hirq.callee(n) or "").startswith(P + "parse_") and (hirq.callee(n) or "").endswith("_declaration") and fn == "parse_declaration":
                 for a in n["a"]:
                     ua = hirq.unwrap_trivial(a)
-                    if ua.get("k") == "Path" and ua.get("res") == "flags":
+                    if ua.get("k") == "Path" and ua.get("rk") == "Local" and "EnumSet<alpha::common::DeclarationFlag>" in str(F.lib.ty(ua.get("t"))).replace(" ", ""):
                         o = origins.origins(b["hir"], a, b.get("params", ()))
                         run.ob("R9-FLAGS-FLOW", "dispatch %s" % hirq.callee(n).split("::")[-1], o == {("call", "enumset::EnumSet::new")}, F.where(b, n),
                                "the flags handed to %s start from the empty set (EnumSet::new) only; origins %s" % (hirq.callee(n).split("::")[-1], sorted(map(str, o))))
